@@ -848,6 +848,8 @@ def oracle(m, p, err, rate) -> List[Tuple[str, str]]:
         alive = [t for t in m["obstypes"] if any(r["obs"][t][0] is not None for r in rows)]
         for s in list(exp_types):
             exp_types[s] = list(alive)
+        if not alive:
+            exp_types = {}
     got_types = {k: list(v) for k, v in meta.get("obstypes", {}).items()}
     if got_types != exp_types:
         out.append((f"{V}:meta:obstypes", f"obstypes {got_types} != file's {exp_types}"))
@@ -915,7 +917,7 @@ def pick_rate(rng, m, decimal: bool = False):
     k = rng.random()
     if k < 0.55:
         return None
-    return rng.choice(DYADIC_RATES)
+    return rng.choice(DYADIC_RATES + DECIMAL_RATES[:2])
 
 
 def run(ctx: Ctx):
@@ -940,8 +942,8 @@ def run(ctx: Ctx):
                 "line (header or data) or a sampling rate; distinct by file text + rate")
     ctx.trusted += ["float(text) is correctly rounded (CPython); the model keeps exact decimals, the harness compares float(Fraction)",
                     "'{:010.7f}'.format(float(second)) of a 7-decimal text reproduces the text (measured on every epoch)",
-                    "obs_sec % sampling_rate is modelled in exact rationals: identical to the double computation for dyadic rates; decimal "
-                    "rates are checked by the oracle only",
+                    "the sampling test |obs_sec - round(obs_sec/rate)*rate| >= 5e-8 is modelled in exact rationals; the double computation "
+                    "differs by ~1e-11 s, far below the margin for epochs and rates printed with 7 decimals (measured on every epoch)",
                     "as_dataset(): Dataset/Time internals are not modelled; its time column is compared to 1 us, its other columns with as_dict()"]
     ctx.assumptions += ["well-formed = RINEX 3.04 / 2.11 record order and columns, epoch flag 0 (event records are refused by log.fatal), time system GPS, "
                         "TIME OF FIRST OBS and MARKER NAME present, RINEX 2 files within one year and century of TIME OF FIRST OBS"]
@@ -968,7 +970,7 @@ def run(ctx: Ctx):
                     one_text(ctx, drv, wd, fmt, text, rate, case)
                 if fmt == 2:
                     blank_continuation_probe(ctx, drv, wd, text)
-        n = ctx.budget(70, 1500)
+        n = ctx.budget(200, 2500)
         for fmt in (3, 2):
             for i in range(n):
                 m = gen_file3(rng, ctx.thorough) if fmt == 3 else gen_file2(rng, ctx.thorough)
@@ -980,7 +982,9 @@ def run(ctx: Ctx):
                 stats(ctx, m, rate)
                 check_render(ctx, drv, m, text, i)
                 one_text(ctx, drv, wd, fmt, text, rate, case, m)
-        # decimal sampling rates on sub-second epoch grids: oracle only
+                if fmt == 3 and i % 10 == 0:
+                    convert_unit_probe(ctx, wd, m, text, case)
+        # decimal sampling rates on sub-second epoch grids (epochs on and one 1e-7 s step off the grid)
         for fmt in (3, 2):
             for i in range(ctx.budget(10, 150)):
                 m = gen_file3(rng, False) if fmt == 3 else gen_file2(rng, False)
@@ -990,12 +994,54 @@ def run(ctx: Ctx):
                 case = {"fmt": fmt, "i": i, "rate": rate, "decimal_rate": True}
                 ctx.case(common.digest([text, rate]))
                 ctx.count("decimal sampling rate")
-                p, err, _ = run_impl(wd, fmt, text, rate)
-                for key, what in oracle(m, p, err, rate):
-                    ctx.violate(key, what, {**case, "model": m, "rate": rate, "file_text": text})
+                one_text(ctx, drv, wd, fmt, text, rate, case, m)
     finally:
         wd.close()
     ctx.traces = ctx.evaluations
+
+
+# carrier frequencies in MHz by system and RINEX band number (RINEX 3.04 table 4 ff., typed independently of midgard.collections.enums)
+FREQ_MHZ = {"G": {"1": "1575.42", "2": "1227.60", "5": "1176.45"},
+            "E": {"1": "1575.42", "5": "1176.45", "7": "1207.140", "8": "1191.795", "6": "1278.75"},
+            "C": {"1": "1575.42", "2": "1561.098", "5": "1176.45", "7": "1207.140", "8": "1191.795", "6": "1268.52"},
+            "J": {"1": "1575.42", "2": "1227.60", "5": "1176.45", "6": "1278.75"},
+            "S": {"1": "1575.42", "5": "1176.45"},
+            "I": {"5": "1176.45", "9": "2492.028"}}
+C_LIGHT = 299792458
+
+
+def convert_unit_probe(ctx: Ctx, wd: Workdir, m, text: str, case):
+    """convert_unit=True (midgard/gnss/gnss.py obstype_to_freq): phase and Doppler columns of every system but GLONASS are
+    scaled by c/f of the type's band for the rows of that system, everything else is untouched (oracle only)"""
+    from midgard.parsers.rinex3_obs import Rinex3Parser
+
+    try:
+        p0 = Rinex3Parser(wd.path(text)).parse()
+        p1 = Rinex3Parser(wd.path(text), convert_unit=True).parse()
+    except Exception as e:
+        ctx.violate("rinex3:convert_unit:raises", f"convert_unit=True raised {type(e).__name__}: {e}", {**case, "file_text": text})
+        return
+    d0, d1 = p0.as_dict(), p1.as_dict()
+    systems = [str(x) for x in d0["text"]["system"]]
+    for t, col in d0["obs"].items():
+        raw = col_floats(col)
+        got = col_floats(d1["obs"].get(t, []))
+        if len(got) != len(raw):
+            ctx.violate("rinex3:convert_unit:length", f"{t}: column length changed", {**case, "file_text": text})
+            return
+        for i, (a, b) in enumerate(zip(raw, got)):
+            s_ = systems[i]
+            scaled = s_ != "R" and t[0] in "LD" and t in p1.meta["obstypes"].get(s_, [])
+            if a is None or not scaled:
+                ok = a == b
+            else:
+                want = Fraction(C_LIGHT) / (Fraction(FREQ_MHZ[s_][t[1]]) * 10**6) * Fraction(a)
+                ok = b is not None and abs(Fraction(b) - want) <= Fraction(4, 2**52) * abs(want)
+            if not ok:
+                ctx.violate("rinex3:convert_unit:" + ("scaled" if scaled else "untouched"),
+                            f"row {i} ({systems[i]}) type {t}: {a} became {b} with convert_unit=True", {**case, "file_text": text})
+                return
+    ctx.count("convert_unit probes")
 
 
 def regrid(rng, m, rate):
